@@ -158,6 +158,28 @@ type compiler struct {
 	FuncName    string
 }
 
+// enterFunc names the function whose body is compiled next. The types declared inside a function are kept under
+// its name; when a name is compiled again (a redefinition, or another literal at the same position of a later
+// Eval) the types of the body it replaces are forgotten first, so that the new body cannot resolve a parameter or
+// local to one of them.
+func (c *compiler) enterFunc(name string) {
+	c.FuncName = name
+	if name == "" {
+		return
+	}
+	if c.Globals.compiled == nil {
+		c.Globals.compiled = map[string]bool{}
+	}
+	if c.Globals.compiled[name] {
+		for key := range c.Globals.keyToIndex {
+			if strings.HasPrefix(key, name+".") && !strings.Contains(key[len(name)+1:], ".") {
+				delete(c.Globals.keyToIndex, key)
+			}
+		}
+	}
+	c.Globals.compiled[name] = true
+}
+
 func compilePkgs(g *lookup, pkgs []*token, optimize bool) (ins []instruction, slots int, err error) {
 	locals := newLookup()
 	for _, tok := range pkgs {
@@ -478,7 +500,7 @@ func (c *compiler) compile(tok *token) []instruction {
 
 	case "function":
 		target := tok.Tokens[0]
-		c.FuncName = c.pkgPrefix(target.Text)
+		c.enterFunc(c.pkgPrefix(target.Text))
 		res = append(res, c.compile(tok.Tokens[1])...)
 		idx := c.Globals.Index(c.expPrefix(target.Text))
 		res = append(res, instruction{Code: codeGlobalFunc, A: reg(idx)})
@@ -486,7 +508,7 @@ func (c *compiler) compile(tok *token) []instruction {
 
 	case "lambda":
 		tmp := c.FuncName
-		c.FuncName = c.pkgPrefix(tok.Tokens[0].Pos.String())
+		c.enterFunc(c.pkgPrefix(tok.Tokens[0].Pos.String()))
 		res = append(res, c.compile(tok.Tokens[0])...)
 		c.FuncName = tmp
 
@@ -687,7 +709,7 @@ func (c *compiler) compile(tok *token) []instruction {
 		}
 	case "init":
 		const initFunc = 0
-		c.FuncName = c.pkgPrefix("init")
+		c.enterFunc(c.pkgPrefix("init"))
 		res = append(res, c.compile(tok.Tokens[initFunc])...)
 		res = append(res, instruction{Code: codeCall})
 		c.FuncName = ""
@@ -951,7 +973,7 @@ func (c *compiler) compile(tok *token) []instruction {
 		res = append(res, c.toData(typ, tok.Tokens[newData])...)
 	case "method":
 		const methodType, methodName, methodFunc = 0, 1, 2
-		c.FuncName = c.pkgPrefix(tok.Tokens[methodType].Text) + "." + tok.Tokens[methodName].Text
+		c.enterFunc(c.pkgPrefix(tok.Tokens[methodType].Text) + "." + tok.Tokens[methodName].Text)
 		res = append(res, c.compile(tok.Tokens[methodFunc])...)
 		res = append(res, instruction{Code: codeGlobalGet, A: reg(c.Globals.Index(c.expPrefix(tok.Tokens[methodType].Text)))})
 		res = append(res, instruction{Code: codeSetMethod,
